@@ -11,6 +11,7 @@ import GrcovModel.Writers
 import GrcovModel.Props.C05
 import GrcovModel.Props.C03CobAde
 import GrcovModel.Props.C03CobBytes
+import GrcovModel.Props.C03Lcov
 import GrcovModel.Props.C03Docs
 import GrcovModel.Props.C03Main
 import GrcovModel.Props.C03JsonBytes
